@@ -14,7 +14,7 @@
 use std::cell::RefCell;
 use std::fmt::Debug;
 use std::fs::File;
-use std::io::Read;
+use std::io::{Read, Write};
 use std::path::{Path, PathBuf};
 use std::rc::Rc;
 
@@ -361,6 +361,14 @@ impl Builtins {
                     match env.borrow().converter_registry.get_converter(c_type) { Some(c) => {
                         #[cfg(feature = "verif")]
                         let verif_out = write_path.as_ref().map(|p| p.with_extension(c.file_ext()).to_string_lossy().to_string());
+                        // Convert into memory first: a value that cannot be converted must
+                        // not leave a new, empty or truncated artifact behind.
+                        let mut buf: Vec<u8> = Vec::new();
+                        if let Err(e) = c.convert(Rc::new(val), &mut buf) {
+                            #[cfg(feature = "verif")]
+                            if let Some(ref p) = verif_out { crate::verif::emit(serde_json::json!({"ev":"out_done","path":p,"okay":false})); }
+                            return Err(Error::new(format!("{}", e).into(), pos.clone()));
+                        }
                         let mut writer: Box<dyn std::io::Write> = match write_path {
                             Some(p) => {
                                 let p = p.with_extension(c.file_ext());
@@ -370,11 +378,7 @@ impl Builtins {
                             }
                             None => Box::new(stdout),
                         };
-                        if let Err(e) = c.convert(Rc::new(val), &mut writer) {
-                            #[cfg(feature = "verif")]
-                            if let Some(ref p) = verif_out { crate::verif::emit(serde_json::json!({"ev":"out_done","path":p,"okay":false})); }
-                            return Err(Error::new(format!("{}", e).into(), pos.clone()));
-                        }
+                        writer.write_all(&buf)?;
                         #[cfg(feature = "verif")]
                         if let Some(ref p) = verif_out { crate::verif::emit(serde_json::json!({"ev":"out_done","path":p,"okay":true})); }
                         return Ok(());
